@@ -184,9 +184,31 @@ func newError(rt *runtime, name string, stackFramesToPop int, in ...interface{})
 	} else if length > 0 {
 		description, in = in[0].(string), in[1:]
 	}
+	// The message must not run script code: formatting an object Value would call its toString
+	// or valueOf from inside fmt, which swallows whatever they panic with (an exception that
+	// ES5 does not ask for, or an interrupt) and lets the script go on.
+	for i, arg := range in {
+		if value, ok := arg.(Value); ok && value.kind == valueObject {
+			in[i] = describeObject(value.object())
+		}
+	}
 	err.message = err.describe(description, in...)
 
 	return err
+}
+
+// describeObject is the text of an object in an error message: what the built-in
+// toString of its class prints, without calling anything the script may have defined.
+func describeObject(obj *object) string {
+	switch fn := obj.value.(type) {
+	case nativeFunctionObject:
+		return fmt.Sprintf("function %s() { [native code] }", fn.name)
+	case nodeFunctionObject:
+		return fn.node.source
+	case bindFunctionObject:
+		return "function () { [native code] }"
+	}
+	return "[object " + obj.class + "]"
 }
 
 func (rt *runtime) panicTypeError(argumentList ...interface{}) *exception {
